@@ -1,4 +1,4 @@
-//@ needs specs errors stdspecs anchor_shim state_core oracle tick_math_abs
+//@ needs specs errors stdspecs lebytes anchor_shim state_core oracle tick_math_abs
 pub mod validators {
 use vstd::prelude::*;
 use crate::errors::ErrorCode;
@@ -119,6 +119,80 @@ impl Oracle {
             && final(self).whirlpool == whirlpool && final(self).trade_enable_timestamp == (match trade_enable_timestamp { Some(t) => t, None => 0u64 })
             // the variables start inside the reachable-state invariant
             && inv14(final(self).adaptive_fee_constants, final(self).adaptive_fee_variables),
+//@ end
+}
+
+// ------------------------------------------------------------------ pool initialization (C19)
+//@ assume shims for Whirlpool::initialize / initialize_reward: Pubkey::ge is the negation of an uninterpreted strict order that is irreflexive (equal mints are rejected); WhirlpoolControlFlags and the two extension segments are opaque (their 32 bytes are not interpreted); derive(Default) on WhirlpoolRewardInfo is the all-default value; `(MIN..=MAX).contains(&x)` is rewritten (logged) to the comparison it denotes; `iter().position(|r| !r.initialized())` to the named helper first_uninitialized_reward
+#[verifier::external_body]
+pub broadcast proof fn ax_pk_lt_irrefl(a: Pubkey) ensures !#[trigger] pk_lt(a, a) {}
+pub struct WhirlpoolControlFlags(pub u16);
+pub struct WhirlpoolExtensionSegmentPrimary { pub bytes: [u8; 32] }
+pub struct WhirlpoolExtensionSegmentSecondary { pub bytes: [u8; 32] }
+pub uninterp spec fn ext_primary(flags: u16) -> [u8; 32];
+pub uninterp spec fn ext_secondary() -> [u8; 32];
+impl WhirlpoolExtensionSegmentPrimary {
+    #[verifier::external_body] pub fn new(control_flags: WhirlpoolControlFlags) -> (r: Self) ensures r.bytes == ext_primary(control_flags.0) { unimplemented!() }
+    pub fn to_bytes(&self) -> (r: [u8; 32]) ensures r == self.bytes { self.bytes }
+}
+impl WhirlpoolExtensionSegmentSecondary {
+    #[verifier::external_body] pub fn new() -> (r: Self) ensures r.bytes == ext_secondary() { unimplemented!() }
+    pub fn to_bytes(&self) -> (r: [u8; 32]) ensures r == self.bytes { self.bytes }
+}
+pub open spec fn reward_info_default(ext: [u8; 32]) -> WhirlpoolRewardInfo {
+    WhirlpoolRewardInfo { mint: pk_default(), vault: pk_default(), extension: ext, emissions_per_second_x64: 0, growth_global_x64: 0 }
+}
+impl Default for WhirlpoolRewardInfo {
+    fn default() -> (r: Self) ensures r == reward_info_default(r.extension), forall|i: int| 0 <= i < 32 ==> r.extension[i] == 0 {
+        WhirlpoolRewardInfo { mint: Pubkey::default(), vault: Pubkey::default(), extension: [0u8; 32], emissions_per_second_x64: 0, growth_global_x64: 0 }
+    }
+}
+/// lowest index of a reward that is not initialized (what `iter().position(|r| !r.initialized())` returns)
+pub fn first_uninitialized_reward(infos: &[WhirlpoolRewardInfo; 3]) -> (r: Option<usize>)
+    ensures match r { Some(i) => i < 3 && !infos[i as int].is_init() && forall|j: int| 0 <= j < i ==> infos[j].is_init(), None => forall|j: int| 0 <= j < 3 ==> infos[j].is_init() },
+{
+    if !infos[0].initialized() { Some(0) } else if !infos[1].initialized() { Some(1) } else if !infos[2].initialized() { Some(2) } else { None }
+}
+use crate::state_core::{Whirlpool, WhirlpoolRewardInfo, NUM_REWARDS};
+use crate::tick_math::{tick_of, tick_index_from_sqrt_price};
+use crate::lebytes::*;
+impl WhirlpoolRewardInfo {
+//@ fn state/whirlpool.rs new in=/^impl WhirlpoolRewardInfo \{/ -> r
+    ensures r == reward_info_default(extension),
+//@ end
+}
+impl Whirlpool {
+/// C19: a pool is created only with ordered, distinct mints, a sqrt-price inside the protocol bounds and validated fee rates; it starts with zero
+/// liquidity, zero fee growth / protocol fees, the tick of its price, and three uninitialized rewards
+//@ fn state/whirlpool.rs initialize in=/^impl Whirlpool \{/ -> r
+    requires tick_spacing > 0,
+    ensures
+        !pk_lt(token_mint_a, token_mint_b) ==> r == err::<()>(ErrorCode::InvalidTokenMintOrder),
+        pk_lt(token_mint_a, token_mint_b) && !price_ok(sqrt_price as int) ==> r == err::<()>(ErrorCode::SqrtPriceOutOfBounds),
+        r is Ok <==> (pk_lt(token_mint_a, token_mint_b) && price_ok(sqrt_price as int) && default_fee_rate <= 60_000 && whirlpools_config.data.default_protocol_fee_rate <= 2_500),
+        r is Ok ==> ({ let w = *final(self);
+            &&& w.token_mint_a == token_mint_a && w.token_mint_b == token_mint_b && w.token_mint_a != w.token_mint_b
+            &&& w.token_vault_a == token_vault_a && w.token_vault_b == token_vault_b
+            &&& w.whirlpools_config == whirlpools_config.k && w.tick_spacing == tick_spacing && w.fee_tier_index_seed == to_le_u16(fee_tier_index)
+            &&& w.fee_rate == default_fee_rate && w.fee_rate <= 60_000 && w.protocol_fee_rate == whirlpools_config.data.default_protocol_fee_rate && w.protocol_fee_rate <= 2_500
+            &&& w.sqrt_price == sqrt_price && w.tick_current_index as int == tick_of(sqrt_price as int)
+            &&& w.liquidity == 0 && w.protocol_fee_owed_a == 0 && w.protocol_fee_owed_b == 0 && w.fee_growth_global_a == 0 && w.fee_growth_global_b == 0
+            &&& (forall|k: int| 0 <= k < 3 ==> !(#[trigger] w.reward_infos[k]).is_init() && w.reward_infos[k].emissions_per_second_x64 == 0 && w.reward_infos[k].growth_global_x64 == 0)
+            &&& w.reward_infos[0].extension == whirlpools_config.data.reward_emissions_super_authority.0 }),
+//@ rewrite /!\(MIN_SQRT_PRICE_X64\.\.=MAX_SQRT_PRICE_X64\)\.contains\(&sqrt_price\)/ => /!(MIN_SQRT_PRICE_X64 <= sqrt_price && sqrt_price <= MAX_SQRT_PRICE_X64)/
+//@ rewrite /fee_tier_index\.to_le_bytes\(\)/ => /fee_tier_index.to_le_bytes_v()/
+//@ inject at /^\s*\{/
+        proof { broadcast use ax_pk_lt_irrefl; }
+//@ end
+/// rewards are initialized in index order, each at most once
+//@ fn state/whirlpool.rs initialize_reward in=/^impl Whirlpool \{/ -> r
+    ensures
+        r is Ok <==> (index < 3 && !old(self).reward_infos[index as int].is_init() && forall|j: int| 0 <= j < index ==> old(self).reward_infos[j].is_init()),
+        r is Err ==> r == err::<()>(ErrorCode::InvalidRewardIndex) && *final(self) == *old(self),
+        r is Ok ==> final(self).reward_infos[index as int] == (WhirlpoolRewardInfo { mint: mint, vault: vault, ..old(self).reward_infos[index as int] })
+            && (forall|j: int| 0 <= j < 3 && j != index ==> final(self).reward_infos[j] == old(self).reward_infos[j])
+            && *final(self) == (Whirlpool { reward_infos: final(self).reward_infos, ..*old(self) }),
+//@ rewrite /self\.reward_infos\.iter\(\)\.position\(\|r\| !r\.initialized\(\)\)/ => /first_uninitialized_reward(&self.reward_infos)/
 //@ end
 }
 }
